@@ -141,11 +141,12 @@ def _rand_dtype(np, rng, kinds, maxshape, names=None, nfields=None):
 
 
 def concat(np, chunks):
-    """concatenation that keeps the declared dtype (np.concatenate converts to native order)"""
+    """concatenation that keeps the declared dtype (np.concatenate converts to native order); chunks with more than one axis
+    contribute all their elements, in C order"""
     out = np.zeros(sum(c.size for c in chunks), dtype=chunks[0].dtype)
     k = 0
     for c in chunks:
-        out[k:k + c.size] = np.ascontiguousarray(c)
+        out[k:k + c.size] = np.ascontiguousarray(c).reshape(-1)
         k += c.size
     return out
 
@@ -212,7 +213,8 @@ def header_ok(np, hdr, user, table, delim=None):
     return True
 
 
-ENTRY_POINTS = ["sfile.write/read", "SFile", "SFile[]", "Recfile+nrows", "Recfile", "recfile.write/read", "io.write/read", "io.read dtype="]
+ENTRY_POINTS = ["sfile.write/read", "SFile", "SFile[]", "Recfile+nrows", "Recfile", "recfile.write/read", "io.write/read", "io.read dtype=",
+                "SFile reused"]
 
 
 def roundtrip_statement(table, header, entry):
@@ -238,6 +240,27 @@ def roundtrip_statement(table, header, entry):
                 hdr = sf.get_header()
                 if sf.get_nrows() != table.size:
                     return "get_nrows %r" % sf.get_nrows()
+        elif entry == "SFile reused":
+            # one handle object, used for another file first (a different table with its own header), then opened again
+            other = np.zeros(3, dtype=[("q", "<f4"), ("r", "S2")])
+            fn0 = fn + ".first"
+            sf = sfile.SFile()
+            try:
+                sf.open(fn0, mode="w")
+                sf.write(other, header={"first": 1})
+                sf.close()
+                sf.open(fn0, mode="r")
+                sf.read()
+                sf.open(fn, mode="w")
+                sf.write(table, header=header)
+                sf.close()
+                sf.open(fn, mode="r")
+                got = sf.read()
+                hdr = sf.get_header()
+                sf.close()
+            finally:
+                if os.path.exists(fn0):
+                    os.remove(fn0)
         elif entry == "SFile[]":
             with sfile.SFile(fn, mode="w") as sf:
                 sf.write(table, header=header)
@@ -267,7 +290,7 @@ def roundtrip_statement(table, header, entry):
             got = eio.read(fn, dtype=table.dtype, type="rec")
         else:
             return "unknown entry point"
-        r = same_rows(np, got, want)
+        r = same_rows(np, got, np.ascontiguousarray(want).reshape(-1))
         if r is not True:
             return r
         r = same_rows(np, table, want)
@@ -342,6 +365,8 @@ def _dom_roundtrip(tier, seed):
     tables.append(base[::2])
     tables.append(base[3:4])
     tables.append(base[::-1])
+    tables.append(base.copy().reshape(4, 3))          # an array of records with two axes: twelve rows
+    tables.append(base.copy().reshape(2, 3, 2)[:, 1:, :])
     k = 0
     for ti, t in enumerate(tables):
         for ei, entry in enumerate(ENTRY_POINTS):
@@ -639,6 +664,10 @@ def _dom_handle(tier, seed):
                 text = delim is not None
                 dt = _text_dtype(np, rng) if text else _rand_dtype(np, rng, NUM + BIN_EXTRA + ["S"], 4)
                 chunks = [keep_clear_of_known_findings(np, _fill(np, rng, dt, rng.choice([1, 2, 3, 10]), text=text), delim) for _ in range(nch)]
+                # a chunk may be an array of records with two axes: all its elements are rows
+                chunks = [c.reshape(2, c.size // 2) if (c.size % 2 == 0 and c.size >= 4 and j % 2) else c for j, c in enumerate(chunks)]
+                if all(c.ndim == 1 for c in chunks):
+                    chunks[-1] = concat(np, [chunks[-1]] * 4).reshape(2, -1) if delim is None else chunks[-1]
                 tag, bdt = rng.choice(_incompatible(np, rng, dt))
                 bad = keep_clear_of_known_findings(np, _fill(np, rng, bdt, 2, text=text), delim)
                 yield dict(call=(lambda: None), args=[], ghost=dict(chunks=chunks, header=rng.choice(_HEADERS[:9]), delim=delim, mode=mode, bad=bad),
